@@ -20,6 +20,9 @@ from nptdms import TdmsFile  # noqa: E402
 from nptdms.log import log_manager  # noqa: E402
 
 log_manager.set_level(logging.CRITICAL)
+import warnings  # noqa: E402
+warnings.simplefilter('ignore')   # numeric warnings of the code under test on extreme pool values are not verdicts
+np.seterr(all='ignore')
 
 if not os.path.realpath(nptdms.__file__).startswith(os.path.realpath(REPO) + os.sep):
     sys.stderr.write('harness error: nptdms imported from %s, not %s\n' % (nptdms.__file__, REPO))
